@@ -193,6 +193,18 @@ pub fn run_c14(sc: &HistSc, st: &mut Stats) -> super::c06::HistOutcome {
             Applied::Ok(_) => {}
             Applied::Panicked(_) => { st.note("an object operation panicked (a C06 matter); run abandoned", 0, || op.to_json().to_string_compact()); break; }
         }
+        // observe after every step (hash, ==, cmp): an observation must not change any later answer —
+        // a cache filled here and not invalidated by a later mutation shows at the next checkpoint
+        {
+            let q = op.reg();
+            let _ = catch_unwind(AssertUnwindSafe(|| {
+                let h = h_sip(&regs[q]);
+                let e = regs[q] == regs[q];
+                let c = regs[q].cmp(&regs[(q + 1) % REGISTERS]);
+                let v = Value::Object(regs[q].clone());
+                (h, e, c, h_fnv(&v))
+            }));
+        }
         if !sc.checkpoints.contains(&step) { continue; }
         let r = match op { Op::CloneTo { dst, .. } => *dst, _ => op.reg() };
         let orig = regs[r].clone_from_ref();
